@@ -360,7 +360,7 @@ def render_decl(k, line, rng=None, name=None):
             rets = [T(g[0]) for g in p['groups']]
             if p['e']:
                 # the error result is sometimes spelled through an alias of error declared in another package
-                rets.append("rt.Err" if (rng is not None and rng.chance(0.3)) else "error")
+                rets.append("rt.Err" if (rng is not None and rng.chance(0.12)) else "error")
             argterms = ' + "," + '.join(term_of("a%d" % j, t) for j, t in enumerate(p['req'])) or '""'
             body = ['\trt.Enter("%s")' % pid]
             zeros = ", ".join(["%s{}" % T(g[0]) for g in p['groups']] + (["err"] if p['e'] else []))
